@@ -9,7 +9,8 @@
 //! `<base>` = `none` | `<type>:<ecdh,…|->:<commitment,…|->`; `c08_open <v> <S> <R> <n> <ecdh> <commitment>` -> `none` |
 //! `ok <amount> <mask>`; `c07_scenario <seed> <ranges×4> <ver> <rct> <main> <extra> <T> <fill> <out>…` -> `<h> <scan result>`
 //! (grammar: see Drv/C07.lean; the transaction is built here by `build`, `<h>` = Keccak(prefix ‖ base)[0..8]; extra letters `S` / `L` =
-//! additional-key list one key short / one key too long; "corrupt" letters `0` / `1` / `L` = legacy mask forced to 0 / 1 / l-1).
+//! additional-key list one key short / one key too long; "corrupt" letters `0` / `1` / `L` = legacy mask forced to 0 / 1 / l-1;
+//! `x` = "cross-key amounts": the ecdh field and the mask are encoded under the derivation of the OTHER transaction key).
 //! Entries end with `:<output key>/<view tag|->/<clear amount>` (`OwnedTxOut::out()`); `c08_open` prints the recomputed commitment
 //! (`Opening::commitment`, compressed) as third field. `c07_check <v> <S> <ranges×4> <n> <P> <R>` -> `none` | `<major>/<minor>`:
 //! `SubKeyChecker::check` and `check_with_key_generator` on a checker built by `SubKeyChecker::new` (`CHECK-DIFFER` if the two
@@ -153,9 +154,9 @@ fn tag_is_wrong(c: char) -> bool { matches!(c, 'w' | 'v' | 'x' | 'y' | 'z' | 'f'
 /// "corrupt" letters that corrupt nothing: the sender's mask (legacy types; the compact mask is derived) is forced to 0 / 1 / l-1
 fn forced_mask(c: char) -> Option<Scalar> { match c { '0' => Some(Scalar::ZERO), '1' => Some(Scalar::ONE), 'L' => Some(-Scalar::ONE), _ => None } }
 /// the point of the main transaction key the sender publishes: r·G or r·S'(main_sub), plus main_tors·T
+fn main_base(h: &Hdr, v: &Scalar, S: &EdwardsPoint) -> EdwardsPoint { match h.main_sub { None => G, Some((i, j)) => dest_at(v, S, i, j).spend } }
 fn main_point(h: &Hdr, v: &Scalar, S: &EdwardsPoint) -> EdwardsPoint {
-    let base = match h.main_sub { None => G, Some((i, j)) => dest_at(v, S, i, j).spend };
-    torsion(&h.T, h.main_tors, sc(&h.seed, 'r', 0) * base)
+    torsion(&h.T, h.main_tors, sc(&h.seed, 'r', 0) * main_base(h, v, S))
 }
 impl Hdr {
     fn legacy(&self) -> bool { matches!(self.rct, Some(1..=3)) }
@@ -187,7 +188,17 @@ fn build_out(h: &Hdr, v: &Scalar, S: &EdwardsPoint, pos: u32, o: &OutD) -> Built
             let tag = tag_byte(r.tag, right);
             // deriv `b<k>`: main secret, and the additional key at this position is the main key plus k·T (same derivation, k > 0: other bytes)
             let add_key = if r.own { enc(&torsion(&h.T, r.tors, if d.sub { secret * d.spend } else { secret * G })) }
-                else if let Some(k) = r.both { enc(&torsion(&h.T, k, main_point(h, v, S))) } else { unrelated_add() };
+                else if let Some(k) = r.both { enc(&torsion(&h.T, k, main_point(h, v, S))) }
+                // corrupt `x` with deriv `m`: the additional key of this position is the sender's a_pos key for the same destination
+                else if r.corrupt == 'x' { let a = sc(&h.seed, 'a', pos); enc(&if d.sub { a * d.spend } else { a * G }) } else { unrelated_add() };
+            // corrupt `x` ("cross-key amounts"): the one-time key (and the tag) above come from this output's key, but the ecdh field and
+            // the mask are encoded under the shared scalar of the OTHER transaction key at this position — deriv `m` / `b<k>`: the
+            // per-output secret a_pos, published as the additional key of this position (`m` only); deriv `a` / `a<k>`: the main secret r,
+            // seen by the wallet as 8·v·(r·B + k·T) = 8·r·(v·B), B the base of the main key. The output does not open under the key
+            // that matches it (it would under the other one): not to be reported with an amount
+            let cross = r.corrupt == 'x';
+            let k = if !cross { k } else if r.own { deriv_scalar(&derivation(&sc(&h.seed, 'r', 0), &(v * main_base(h, v, S))), n) }
+                else { deriv_scalar(&derivation(&sc(&h.seed, 'a', pos), &d.view), n) };
             let y = if h.compact() { compact_mask(&k) } else { forced_mask(r.corrupt).unwrap_or_else(|| sc(&h.seed, 'y', pos)) };
             let C = enc(&commitment(&y, r.amount));
             let ecdh = if h.legacy() {
@@ -741,6 +752,98 @@ fn family_tag_collision(o: &mut Out, rng: &mut Rng, thorough: bool) {
     }
 }
 
+// ---------------------------------------------------------------- "cross-key amounts" (corrupt letter `x`; own generator streams)
+/// one case of the family: the scenario line, its kind, the position of the cross-key output, whether the wallet owns that output
+/// (`trap`: the scan must then be `Err(InvalidCommitment)`), and whether its one-time key comes from the main key
+pub struct CrossCase { pub line: String, pub kind: String, pub pos: usize, pub trap: bool, pub key_via_main: bool }
+/// "cross-key amounts": transactions with a main transaction key AND per-output additional keys in which one output's ONE-TIME KEY is
+/// derived from one of the two keys of its position (the wallet owns it through that key) while its ecdh field and commitment mask are
+/// encoded under the OTHER key's derivation — both directions, legacy and compact encodings, main keys r·G / r·S' / with a small-order
+/// component, next to honest owned outputs. The output opens under the key that did NOT match only: the scan is `Err(InvalidCommitment)`
+/// (no retry with the other key, no entry carrying the key that happened to open). Controls: the same outputs addressed to somebody else /
+/// outside the ranges / at a shifted position (not owned: the honest ones are reported), and transactions without RingCT data.
+pub fn cross_key_cases(rng: &mut Rng, thorough: bool) -> Vec<CrossCase> {
+    // (kind, main key, cross output `<dest>.<deriv>`, honest output through the main key `<dest>.<deriv>`)
+    const SHAPES: [(&str, &str, &str, &str); 6] = [
+        ("key-main:amount-add:primary", "g", "P.m", "P.m"),
+        ("key-add:amount-main:sub", "g", "S0/1.a", "P.m"),
+        ("key-main:amount-add:sub-main", "s1/2", "S1/2.m", "S1/2.m"),
+        ("key-add:amount-main:primary-torsion", "g+3", "P.a2", "P.m"),
+        ("key-add:amount-main:sub-main", "s2/1", "S1/3.a", "S2/1.m"),
+        ("key-main:amount-add:sub-torsion-main", "s0/2+5", "S0/2.m", "S0/2.m"),
+    ];
+    let mut plan: Vec<(usize, u64)> = vec![];   // (shape, rct type)
+    if thorough { for sh in 0..SHAPES.len() { for rct in 1..=6u64 { plan.push((sh, rct)); } } }
+    else {
+        // both directions × both encodings on the plain shapes, then a subaddress main key and a torsioned additional key, one encoding each
+        for sh in 0..2 { plan.push((sh, rng.range(1, 3))); plan.push((sh, rng.range(4, 6))); }
+        let legacy_first = rng.chance(1, 2);
+        plan.push((*rng.pick(&[2usize, 5]), if legacy_first { rng.range(1, 3) } else { rng.range(4, 6) }));
+        plan.push((*rng.pick(&[3usize, 4]), if legacy_first { rng.range(4, 6) } else { rng.range(1, 3) }));
+    }
+    let mut cases = vec![];
+    for (sh, rct) in plan {
+        let (kind, main, cross, honest_main) = SHAPES[sh];
+        let am = rng.u64_boundary();
+        let mut outs = vec![format!("S1/1.a.{}.0.{}", rng.pick(&['t', 'n']), am ^ 1), "X".to_string(), format!("{}.{}.0.{}", honest_main, rng.pick(&['t', 'n']), am ^ 2)];
+        let pos = rng.below(outs.len() as u64 + 1) as usize;
+        outs.insert(pos, format!("{}.{}.0.{}.x", cross, rng.pick(&['t', 'n']), am));
+        let extra = if thorough { *rng.pick(&["KA", "KA", "NKAP", "KAB", "KL", "AK", "ZKA"]) } else { *rng.pick(&["KA", "KA", "NKAP", "KL"]) };
+        cases.push(CrossCase { line: scen_line(rng, [0, 3, 0, 4], 2, &rct.to_string(), main, extra, CHEAP_FILL, &outs),
+            kind: format!("{}:{}", kind, if rct <= 3 { "legacy" } else { "compact" }), pos, trap: true, key_via_main: cross.ends_with(".m") });
+    }
+    // controls: cross-key outputs this wallet does not own (foreign wallet, index outside the ranges, shifted position) next to honest ones
+    for rct in if thorough { (1..=6u64).collect::<Vec<_>>() } else { vec![rng.range(1, 6)] } {
+        let am = rng.u64_boundary();
+        let outs = vec![format!("P.m.t.0.{}", am ^ 1), format!("F.m.t.0.{}.x", am), format!("S3/3.a.n.0.{}.x", am), format!("S0/2.a.n.0.{}", am ^ 2), format!("P.m.t.1.{}.x", am), format!("F.a1.n.0.{}.x", am), "X".to_string()];
+        cases.push(CrossCase { line: scen_line(rng, [0, 3, 0, 4], 2, &rct.to_string(), "g", "KA", CHEAP_FILL, &outs), kind: "control:not-owned".into(), pos: 0, trap: false, key_via_main: true });
+    }
+    // … and transactions without RingCT data (nothing is encoded, `x` only changes the additional key): everything owned is reported
+    for (ver, rct) in if thorough { vec![(1u64, "n"), (2, "n"), (2, "0")] } else { vec![*rng.pick(&[(1u64, "n"), (2, "n"), (2, "0")])] } {
+        let am = rng.u64_boundary();
+        let outs = vec![format!("P.m.t.0.{}.x", am), "X".to_string(), format!("S0/1.a.n.0.{}.x", am ^ 1)];
+        cases.push(CrossCase { line: scen_line(rng, [0, 3, 0, 4], ver, rct, "g", "KA", CHEAP_FILL, &outs), kind: "control:no-ringct".into(), pos: 0, trap: false, key_via_main: true });
+    }
+    cases
+}
+/// the description with the `x` letters removed (the honest twin of a cross-key scenario)
+fn without_cross(line: &str) -> String { line.split(' ').map(|t| t.strip_suffix(".x").unwrap_or(t)).collect::<Vec<_>>().join(" ") }
+/// the family through the scanner (`label` prefixes the kinds); `opens`: additionally `EcdhInfo::open_commitment` on the cross-key output
+/// with both keys of its position — the key that matched must NOT open it, the other one must (the trap is armed)
+fn family_cross_key(o: &mut Out, rng: &mut Rng, thorough: bool, opens: bool, label: &str) {
+    for (n, c) in cross_key_cases(rng, thorough).into_iter().enumerate() {
+        let s = match run_scenario_only(o, c.line.clone(), &format!("{}cross-key:{}", label, c.kind)) { Some(s) => s, None => continue };
+        if !c.trap {
+            o.direct(owned_count(&s.expected).map(|k| k >= 2).unwrap_or(false), "family invariant (cross-key control): the honest owned outputs are expected, no error", trunc(&c.line, 300), trunc(&s.expected, 200), "ok ≥2 …".into());
+            continue;
+        }
+        o.direct(s.expected == "err InvalidCommitment", "family invariant (cross-key amounts): an owned output whose amount is encoded under the other key makes the expected result an error", trunc(&c.line, 300), trunc(&s.expected, 200), "err InvalidCommitment".into());
+        // the honest twin (same description without `x`): the output at that position is owned and opens
+        let twin = without_cross(&c.line);
+        if let Some(t) = run_scenario_only(o, twin.clone(), &format!("{}cross-key:honest-twin", label)) {
+            o.direct(owned_count(&t.expected) == Some(3) && owned_positions(&t.expected).contains(&c.pos), "family invariant (cross-key amounts): without the exchange the three owned outputs are expected, the one at that position among them", trunc(&twin, 300), trunc(&t.expected, 200), format!("ok 3 … with position {}", c.pos));
+        }
+        if n % 2 == 0 { wire_scan(o, &s, &c.line, &format!("{}cross-key", label)); }
+        if opens {
+            let toks: Vec<&str> = c.line.split(' ').collect();
+            let (h, outs) = parse_scenario(&toks[1..]).unwrap();
+            let bt = build(&h, &outs);
+            let b = &bt.outs[c.pos];
+            let am = match outs[c.pos] { OutD::Real(r) => r.amount, _ => 0 };
+            let (matched, other) = if c.key_via_main { (bt.main_key, b.add_key) } else { (b.add_key, bt.main_key) };
+            let e = match b.ecdh.as_ref().unwrap() { EcdhInfo::Standard { mask, amount } => hex(&cat(&[&mask.key, &amount.key])), EcdhInfo::Bulletproof { amount } => hex(&amount.0) };
+            let head = format!("c08_open {} {}", hex(s.vp.view.as_bytes()), hex(s.vp.spend.as_bytes()));
+            let got = o.op(format!("{} {} {} {} {}", head, hex(&matched), c.pos, e, hex(&b.comm)), true);
+            o.direct(got == "none", "cross-key amounts: open_commitment with the transaction key that MATCHED the output does not open it", format!("pos {} {}", c.pos, trunc(&c.line, 300)), got, "none".into());
+            let (y, C) = match &b.expect { Some((_, _, y, C)) => (*y, *C), None => (Scalar::ZERO, [0; 32]) };
+            let want = format!("ok {} {} {}", am, hex(y.as_bytes()), hex(&C));
+            let got = o.op(format!("{} {} {} {} {}", head, hex(&other), c.pos, e, hex(&b.comm)), true);
+            o.direct(got == want, "cross-key amounts: open_commitment with the OTHER transaction key of the position opens it (the trap is armed)", format!("pos {} {}", c.pos, trunc(&c.line, 300)), got, want);
+            o.stat(&format!("{}cross-key:open", label));
+        }
+    }
+}
+
 pub fn run_c07(o: &mut Out, tier: &str, seed: u64) {
     let mut rng = Rng::new(seed ^ 0xc07);
     let thorough = tier == "thorough";
@@ -768,6 +871,9 @@ pub fn run_c07(o: &mut Out, tier: &str, seed: u64) {
     family_mixed_tags(o, &mut rng, thorough);
     family_addkey_count(o, &mut rng, thorough);
     family_tag_collision(o, &mut rng, thorough);
+    // "cross-key amounts" (own generator stream again)
+    let mut rng = Rng::new(seed ^ 0xc07_c0d3);
+    family_cross_key(o, &mut rng, thorough, false, "");
     o.notes.push("every scan result is the agreement of Transaction::check_outputs, TransactionPrefix::check_outputs(Some(&base)), check_outputs_with(pre-built SubKeyChecker) on prefix and on transaction (APIS-DIFFER otherwise)".into());
     o.notes.push("non-trivial = every scenario (each has at least one sender-built output); positions cross 128 / 16384 by filler runs of undecodable keys".into());
 }
@@ -1175,6 +1281,9 @@ pub fn run_c08(o: &mut Out, tier: &str, seed: u64) {
     family_commitment_shuffle(o, &mut rng, thorough);
     family_boundary_masks(o, &mut rng, thorough);
     family_null_zero(o, &mut rng, thorough);
+    // "cross-key amounts" (own generator stream again): scans, and open_commitment with both keys of the position
+    let mut rng = Rng::new(seed ^ 0xc08_c0d3);
+    family_cross_key(o, &mut rng, thorough, true, "c08:");
     o.notes.push("c08_open roundtrips: (amount, mask, secret) × {legacy, compact}, amounts 0, 2^k-1, 2^k, 2^k+1, 2^64-1; corrupt: one flipped bit in ecdh / commitment, non-canonical commitment encodings, commitment to another amount".into());
 }
 
